@@ -4,7 +4,7 @@
    to the generated trigonometric code).  All statements are at
    ROps (Coq's real numbers): for all shapes, all real pixel scales > 0 (<> 0 where that suffices), all real origins. *)
 From Coq Require Import ZArith Reals Lra List Bool QArith.
-From PAV Require Import Base.NumOps Gen.Gen_geometry Model.C02 Model.C02x Proofs.C02 Proofs.C02r.
+From PAV Require Import Base.NumOps Gen.Gen_geometry Model.C02 Model.C02x Proofs.C02 Proofs.C02r Proofs.C02c.
 Import ListNotations.
 Local Open Scope R_scope.
 
@@ -150,6 +150,160 @@ Proof. exact elliptical_radius_R_is_cs. Qed.
 Theorem C02_polar_form : forall y x, let r := sqrt (x * x + y * y) in r * cos (atan2R y x) = x /\ r * sin (atan2R y x) = y.
 Proof. exact polar. Qed.
 
+
+(* ---- 8. the extent's edges are the outermost pixel centres -/+ half a pixel (2-D and 1-D) *)
+Theorem C02_extent_edges_half_pixel : forall H W sy sx oy ox,
+  @Geometry2D_extent ROps (H, W) (sy, sx) (oy, ox) =
+  (@cx_spec ROps W sx ox 0 - sx / 2, @cx_spec ROps W sx ox (IZR (W - 1)) + sx / 2,
+   @cy_spec ROps H sy oy (IZR (H - 1)) - sy / 2, @cy_spec ROps H sy oy 0 + sy / 2).
+Proof. exact extent_edges. Qed.
+Theorem C02_extent_edges_half_pixel_1d : forall n s o,
+  @Geometry1D_extent ROps n s o = (@cx_spec ROps n s o 0 - s / 2, @cx_spec ROps n s o (IZR (n - 1)) + s / 2).
+Proof. exact extent1_edges. Qed.
+
+(* ---- 9. the CLASS layer of the mask constructors (Mask2D.all_false / circular / circular_annular / circular_anti_annular / elliptical /
+        elliptical_annular, generated from mask_2d.py).  An object is (content, pixel_scales, origin).  The content is the documented
+        shape with pixel centres measured from origin (0,0): the `origin` argument is stored and does NOT enter the shape; invert = True
+        complements the content. *)
+Theorem C02_Mask2D_all_false_object : forall sh s o inv, @Mask2D_all_false ROps sh s o inv = (mask_inv inv (mask_of sh (fun _ => true)), s, o).
+Proof. exact Mask2D_all_false_obj. Qed.
+Theorem C02_Mask2D_circular_object : forall H W r sy sx o cy cx inv, sy <> 0 -> sx <> 0 ->
+  @Mask2D_circular ROps (H, W) r (sy, sx) o (cy, cx) inv = (mask_inv inv (mask_of (H, W) (@circ_inside ROps (H, W) (sy, sx) r (cy, cx))), (sy, sx), o).
+Proof. exact Mask2D_circular_obj. Qed.
+Theorem C02_Mask2D_circular_annular_object : forall H W ri ro sy sx o cy cx inv, sy <> 0 -> sx <> 0 ->
+  @Mask2D_circular_annular ROps (H, W) ri ro (sy, sx) o (cy, cx) inv =
+  (mask_inv inv (mask_of (H, W) (@ann_inside ROps (H, W) (sy, sx) ri ro (cy, cx))), (sy, sx), o).
+Proof. exact Mask2D_annular_obj. Qed.
+Theorem C02_Mask2D_circular_anti_annular_object : forall H W ri ro ro2 sy sx o cy cx inv, sy <> 0 -> sx <> 0 ->
+  @Mask2D_circular_anti_annular ROps (H, W) ri ro ro2 (sy, sx) o (cy, cx) inv =
+  (mask_inv inv (mask_of (H, W) (@anti_inside ROps (H, W) (sy, sx) ri ro ro2 (cy, cx))), (sy, sx), o).
+Proof. exact Mask2D_anti_annular_obj. Qed.
+Theorem C02_Mask2D_elliptical_object : forall H W R q angle sy sx o cy cx inv, sy <> 0 -> sx <> 0 -> q <> 0 ->
+  Mask2D_elliptical (H, W) R q angle (sy, sx) o (cy, cx) inv =
+  (mask_inv inv (mask_of (H, W) (@ell_inside ROps (H, W) (sy, sx) R q (cos (angle * PI / 180), sin (angle * PI / 180)) (cy, cx))), (sy, sx), o).
+Proof. exact Mask2D_elliptical_obj. Qed.
+Theorem C02_Mask2D_elliptical_annular_object : forall H W Ri qi ai Ro qo ao sy sx o cy cx inv, sy <> 0 -> sx <> 0 -> qi <> 0 -> qo <> 0 ->
+  Mask2D_elliptical_annular (H, W) Ri qi ai Ro qo ao (sy, sx) o (cy, cx) inv =
+  (mask_inv inv (mask_of (H, W) (@ellann_inside ROps (H, W) (sy, sx) Ri qi (cos (ai * PI / 180), sin (ai * PI / 180)) Ro qo
+                                                (cos (ao * PI / 180), sin (ao * PI / 180)) (cy, cx))), (sy, sx), o).
+Proof. exact Mask2D_elliptical_annular_obj. Qed.
+Theorem C02_Mask2D_elliptical_executable_model : forall H W R q angle sy sx o cy cx inv, sy <> 0 -> sx <> 0 -> q <> 0 ->
+  Mask2D_elliptical (H, W) R q angle (sy, sx) o (cy, cx) inv =
+  @Mask2D_elliptical_cs ROps (H, W) R q (cos (angle * PI / 180), sin (angle * PI / 180)) (sy, sx) o (cy, cx) inv.
+Proof. exact Mask2D_elliptical_is_cs. Qed.
+Theorem C02_Mask2D_elliptical_annular_executable_model : forall H W Ri qi ai Ro qo ao sy sx o cy cx inv,
+  sy <> 0 -> sx <> 0 -> qi <> 0 -> qo <> 0 ->
+  Mask2D_elliptical_annular (H, W) Ri qi ai Ro qo ao (sy, sx) o (cy, cx) inv =
+  @Mask2D_elliptical_annular_cs ROps (H, W) Ri qi (cos (ai * PI / 180), sin (ai * PI / 180)) Ro qo
+                                (cos (ao * PI / 180), sin (ao * PI / 180)) (sy, sx) o (cy, cx) inv.
+Proof. exact Mask2D_elliptical_annular_is_cs. Qed.
+(* the geometry handed out by the constructed mask (Mask2D.geometry): the requested shape, the pixel scales and origin as given *)
+Theorem C02_Mask2D_circular_geometry : forall H W r sy sx o cy cx, (1 <= H)%Z -> (0 <= W)%Z -> sy <> 0 -> sx <> 0 ->
+  @Mask2D_geometry ROps (@Mask2D_circular ROps (H, W) r (sy, sx) o (cy, cx) false) = ((H, W), (sy, sx), o).
+Proof. exact Mask2D_circular_geometry. Qed.
+(* WHERE the circle sits in the mask's own coordinate system (the one Grid2D.from_mask / the extent report, which includes the origin):
+   pixel (i,j) is unmasked iff its centre y = o_y + ((H-1)/2 - i) s_y, x = o_x + (j - (W-1)/2) s_x lies within the radius of the point
+   origin + centre.  `centre` is an offset from the mask origin -- that is exactly what the code does. *)
+Theorem C02_circular_about_origin_plus_centre : forall H W r sy sx oy ox cy cx i j, sy <> 0 -> sx <> 0 -> (0 <= i < H)%Z -> (0 <= j < W)%Z ->
+  let M := @Mask2D_circular ROps (H, W) r (sy, sx) (oy, ox) (cy, cx) false in
+  let p := @centre_spec ROps (H, W) (sy, sx) (oy, ox) (i, j) in
+  getm (fst (fst M)) (i, j) = false <-> sqrt ((fst p - (oy + cy)) ^ 2 + (snd p - (ox + cx)) ^ 2) <= r.
+Proof. exact circular_about_origin_plus_centre. Qed.
+(* Grid2D.from_mask of the constructed mask: the centres (with the origin) of the pixels inside the circle, row-major, carrying the mask *)
+Theorem C02_circular_grid : forall H W r sy sx oy ox cy cx, (1 <= H)%Z -> (0 <= W)%Z -> sy <> 0 -> sx <> 0 ->
+  let M := @Mask2D_circular ROps (H, W) r (sy, sx) (oy, ox) (cy, cx) false in
+  @Grid2D_from_mask ROps M =
+  (map (@centre_spec ROps (H, W) (sy, sx) (oy, ox)) (filter (@circ_inside ROps (H, W) (sy, sx) r (cy, cx)) (coords H W)), M).
+Proof. exact circular_grid. Qed.
+
+(* ---- 10. Grid2D.uniform / from_mask, Mask2D.derive_grid.all_false / unmasked (generated from uniform_2d.py, derive/grid_2d.py).
+         A Grid2D object is (slim values, mask object). *)
+Theorem C02_uniform_grid_object : forall H W sy sx oy ox, (1 <= H)%Z -> (0 <= W)%Z -> sy <> 0 -> sx <> 0 ->
+  @Grid2D_uniform ROps (H, W) (sy, sx) (oy, ox) =
+  (map (@centre_spec ROps (H, W) (sy, sx) (oy, ox)) (coords H W), (mask_of (H, W) (fun _ => true), (sy, sx), (oy, ox))).
+Proof. exact uniform_obj. Qed.
+(* entry i * W + j of the uniform grid is the centre of pixel (i,j): the flattened index IS the position in the grid *)
+Theorem C02_uniform_grid_nth : forall H W sy sx oy ox i j d, (0 <= i < H)%Z -> (0 <= j < W)%Z -> sy <> 0 -> sx <> 0 ->
+  nth (Z.to_nat (i * W + j)) (fst (@Grid2D_uniform ROps (H, W) (sy, sx) (oy, ox))) d =
+  (oy + (IZR (H - 1) / 2 - IZR i) * sy, ox + (IZR j - IZR (W - 1) / 2) * sx).
+Proof. exact uniform_nth. Qed.
+Theorem C02_uniform_grid_indexes : forall H W sy sx oy ox, (1 <= H)%Z -> (0 <= W)%Z -> 0 < sy -> 0 < sx ->
+  @grid_pixel_indexes_2d_slim_from ROps (fst (@Grid2D_uniform ROps (H, W) (sy, sx) (oy, ox))) (H, W) (sy, sx) (oy, ox) = map IZR (seqZ (H * W)).
+Proof. exact uniform_indexes. Qed.
+Theorem C02_coords_flat_index : forall H W, (0 <= H)%Z -> (0 <= W)%Z -> map (fun p => (fst p * W + snd p)%Z) (coords H W) = seqZ (H * W).
+Proof. exact coords_flat_index. Qed.
+Theorem C02_from_mask_object : forall (m : mask) sy sx oy ox, sy <> 0 -> sx <> 0 ->
+  @Grid2D_from_mask ROps (m, (sy, sx), (oy, ox)) =
+  (map (@centre_spec ROps (rows m, cols m) (sy, sx) (oy, ox)) (unmasked m), (m, (sy, sx), (oy, ox))).
+Proof. exact from_mask_obj. Qed.
+Theorem C02_derive_unmasked_is_from_mask : forall M, @DeriveGrid2D_unmasked ROps M = @Grid2D_from_mask ROps M.
+Proof. exact derive_unmasked_is_from_mask. Qed.
+Theorem C02_derive_all_false_object : forall (m : mask) sy sx oy ox, (1 <= rows m)%Z -> sy <> 0 -> sx <> 0 ->
+  @DeriveGrid2D_all_false ROps (m, (sy, sx), (oy, ox)) =
+  (map (@centre_spec ROps (rows m, cols m) (sy, sx) (oy, ox)) (coords (rows m) (cols m)),
+   (mask_of (rows m, cols m) (fun _ => true), (sy, sx), (oy, ox))).
+Proof. exact derive_all_false_obj. Qed.
+
+(* ---- 11. Geometry2D methods (generated from geometry_2d.py) applied to a Grid2D (vals, GM) that carries its OWN mask GM -- any content,
+         any shape, any pixel scales / origin.  The conversions use the GEOMETRY's shape (H, W), scales and origin; GM is only passed on. *)
+Theorem C02_geometry_grid_methods_use_geometry_shape : forall sh s o vals GM,
+  @Geometry2D_grid_pixels_2d_from ROps sh s o (vals, GM) = (@grid_pixels_2d_slim_from ROps vals sh s o, GM) /\
+  @Geometry2D_grid_pixel_centres_2d_from ROps sh s o (vals, GM) = (@grid_pixel_centres_2d_slim_from ROps vals sh s o, GM) /\
+  @Geometry2D_grid_pixel_indexes_2d_from ROps sh s o (vals, GM) = (@grid_pixel_indexes_2d_slim_from ROps vals sh s o, GM) /\
+  @Geometry2D_grid_scaled_2d_from ROps sh s o (vals, GM) = (@grid_scaled_2d_slim_from ROps vals sh s o, GM).
+Proof. exact geometry_grid_methods. Qed.
+Theorem C02_geometry_index_of_interior_points : forall H W sy sx oy ox vals GM ps, 0 < sy -> 0 < sx ->
+  Forall2 (fun c p => in_array (H, W) p /\ in_pixel (H, W) (sy, sx) (oy, ox) p c) vals ps ->
+  @Geometry2D_grid_pixel_centres_2d_from ROps (H, W) (sy, sx) (oy, ox) (vals, GM) = (map (fun p => (IZR (fst p), IZR (snd p))) ps, GM) /\
+  @Geometry2D_grid_pixel_indexes_2d_from ROps (H, W) (sy, sx) (oy, ox) (vals, GM) = (map (fun p => IZR (fst p * W + snd p)) ps, GM).
+Proof. exact geometry_index_of_interior_points. Qed.
+Theorem C02_geometry_pixels_scaled_inverse : forall H W sy sx oy ox vals GM, sy <> 0 -> sx <> 0 ->
+  @Geometry2D_grid_scaled_2d_from ROps (H, W) (sy, sx) (oy, ox) (@Geometry2D_grid_pixels_2d_from ROps (H, W) (sy, sx) (oy, ox) (vals, GM)) = (vals, GM) /\
+  @Geometry2D_grid_pixels_2d_from ROps (H, W) (sy, sx) (oy, ox) (@Geometry2D_grid_scaled_2d_from ROps (H, W) (sy, sx) (oy, ox) (vals, GM)) = (vals, GM).
+Proof. exact geometry_pixels_scaled_inverse. Qed.
+Theorem C02_geometry_scalar_methods : forall sh s o c p,
+  @Geometry2D_pixel_coordinates_2d_from ROps sh s o c = @pixel_coordinates_2d_from ROps c sh s o /\
+  @Geometry2D_scaled_coordinates_2d_from ROps sh s o p = @scaled_coordinates_2d_from ROps p sh s o /\
+  @Geometry2D_central_pixel_coordinates ROps sh s o = @central_pixel_coordinates_2d_from ROps sh /\
+  @Geometry2D_central_scaled_coordinates ROps sh s o = @central_scaled_coordinate_2d_from ROps sh s o.
+Proof. exact geometry_scalar_methods. Qed.
+(* scaled_coordinate_2d_to_scaled_at_pixel_centre_from: a point of the half-open square of pixel p of the array snaps to p's centre *)
+Theorem C02_snap_to_pixel_centre : forall H W sy sx oy ox c p, 0 < sy -> 0 < sx -> in_array (H, W) p -> in_pixel (H, W) (sy, sx) (oy, ox) p c ->
+  @Geometry2D_scaled_coordinate_2d_to_scaled_at_pixel_centre_from ROps (H, W) (sy, sx) (oy, ox) c = @centre_spec ROps (H, W) (sy, sx) (oy, ox) p.
+Proof. exact snap_to_pixel_centre. Qed.
+Theorem C02_snap_idempotent : forall H W sy sx oy ox c p, 0 < sy -> 0 < sx -> in_array (H, W) p -> in_pixel (H, W) (sy, sx) (oy, ox) p c ->
+  let snap := @Geometry2D_scaled_coordinate_2d_to_scaled_at_pixel_centre_from ROps (H, W) (sy, sx) (oy, ox) in snap (snap c) = snap c.
+Proof. exact snap_idempotent. Qed.
+
+(* ---- 12. the native (3-D) index routine geometry_util.grid_pixel_centres_2d_from: row by row it is the slim routine *)
+Theorem C02_native_is_rowwise : forall g sh s o,
+  @grid_pixel_centres_2d_from ROps g sh s o = map (fun row => @grid_pixel_centres_2d_slim_from ROps row sh s o) g.
+Proof. exact native_is_rowwise. Qed.
+Theorem C02_native_index_of_interior_points : forall H W sy sx oy ox g ps, 0 < sy -> 0 < sx ->
+  Forall2 (Forall2 (fun c p => in_array (H, W) p /\ in_pixel (H, W) (sy, sx) (oy, ox) p c)) g ps ->
+  @grid_pixel_centres_2d_from ROps g (H, W) (sy, sx) (oy, ox) = map (map (fun p => (IZR (fst p), IZR (snd p)))) ps.
+Proof. exact native_index_of_interior_points. Qed.
+
+(* ---- 13. 1-D counterparts (any origin, any pixel scale): grid_1d_util / Grid1D / Mask1D *)
+Theorem C02_grid1_of_mask_indexes_to_itself : forall (m : list bool) s o, 0 < s ->
+  map (fun x => @pixel_coordinates_1d_from ROps x (Z.of_nat (length m)) s o) (@grid_1d_slim_via_mask_from ROps m s o) = unmasked1 m.
+Proof. exact grid1_of_mask_indexes_to_itself. Qed.
+Theorem C02_uniform_1d_object : forall n s o, (0 <= n)%Z -> s <> 0 ->
+  @Grid1D_uniform ROps n s o = (map (fun j => o + (IZR j - IZR (n - 1) / 2) * s) (seqZ n), (full1 false n, s, o)).
+Proof. exact uniform1_obj. Qed.
+Theorem C02_from_mask_1d_object : forall (m : list bool) s o, s <> 0 ->
+  @Grid1D_from_mask ROps (m, s, o) = (map (@centre1_spec ROps (Z.of_nat (length m)) s o) (unmasked1 m), (m, s, o)).
+Proof. exact from_mask1_obj. Qed.
+Theorem C02_Mask1D_geometry_extent : forall (m : list bool) s o,
+  let g := @Mask1D_geometry ROps (m, s, o) in
+  @Geometry1D_extent ROps (fst (fst g)) (snd (fst g)) (snd g) = (o - IZR (Z.of_nat (length m)) * s / 2, o + IZR (Z.of_nat (length m)) * s / 2).
+Proof. exact Mask1D_geometry_extent. Qed.
+(* KNOWN FINDING (props/C02.findings.json, fixes/C02_derive_grid_1d_all_false.diff): the body of Mask1D.derive_grid.all_false as it is
+   in the repository pairs the grid of the UNMASKED pixels with the all-false mask: fewer values than the mask has pixels *)
+Theorem C02_derive_all_false_1d_refuted :
+  exists M, length (fst (DeriveGrid1D_all_false_current M)) <> length (unmasked1 (fst (fst (snd (DeriveGrid1D_all_false_current M))))).
+Proof. exact derive_all_false_1d_refuted. Qed.
+
 (* ------------------------------------------------------------------ non-vacuity: the hypothesis sets are met by non-trivial
    inputs (non-square shape, anisotropic scales, unequal non-zero origin), and the models run (QOps) *)
 Example C02_ex_interior_point_hypotheses :
@@ -188,6 +342,32 @@ Example C02_ex_run_elliptical :  (* 3-4-5 angle, axis ratio 1/2 *)
   /\ length (unmasked (mask_of (5, 5)%Z (@ell_inside QOps (5, 5)%Z (1, 1)%Q 2%Q (1 # 2)%Q (4 # 5, 3 # 5)%Q (0, 0)%Q))) = 7%nat.
 Proof. split; vm_compute; reflexivity. Qed.
 
+Example C02_ex_run_class_circular :   (* origin (5, -3) does not move the circle; invert complements *)
+  @Mask2D_circular QOps (3, 4)%Z 1%Q (1, 1)%Q (5, - 3)%Q (0, 1 # 2)%Q false =
+  ([[true; true; false; true]; [true; false; false; false]; [true; true; false; true]], (1, 1)%Q, (5, - 3)%Q)
+  /\ fst (fst (@Mask2D_circular QOps (3, 4)%Z 1%Q (1, 1)%Q (5, - 3)%Q (0, 1 # 2)%Q true)) =
+  [[false; false; true; false]; [false; true; true; true]; [false; false; true; false]].
+Proof. split; vm_compute; reflexivity. Qed.
+Example C02_ex_run_uniform :
+  @Grid2D_uniform QOps (2, 3)%Z (2, 1 # 2)%Q (1, - 1)%Q =
+  ([(2, - 3 # 2); (2, - 1); (2, - 1 # 2); (0, - 3 # 2); (0, - 1); (0, - 1 # 2)]%Q, ([[false; false; false]; [false; false; false]], (2, 1 # 2)%Q, (1, - 1)%Q)).
+Proof. vm_compute. reflexivity. Qed.
+Example C02_ex_run_geometry_foreign_grid :   (* a 2 x 1 Grid2D queried against a 3 x 4 geometry: flat index with the geometry's W = 4 *)
+  fst (@Geometry2D_grid_pixel_indexes_2d_from QOps (3, 4)%Z (2, 1 # 2)%Q (1, - 1)%Q
+         ([(- 1 # 5, - 13 # 10); (3, 0 - 2)]%Q, ([[false]; [false]], (1, 1)%Q, (0, 0)%Q))) = [9; 0]%Q.
+Proof. vm_compute. reflexivity. Qed.
+Example C02_ex_native_hypotheses :
+  Forall2 (Forall2 (fun c p => in_array (3, 4)%Z p /\ in_pixel (3, 4)%Z (2, 1 / 2) (1, -1) p c))
+          [[(- 1 / 5, - 13 / 10)]; [(3, 0 - 2)]] [[(2, 1)%Z]; [(0, 0)%Z]].
+Proof.
+  repeat constructor; unfold in_pixel, cy_spec, cx_spec, two; cbn [T add sub mul div ofZ ROps fst snd];
+    change (3 - 1)%Z with 2%Z; change (4 - 1)%Z with 3%Z; try (cbv; congruence); lra.
+Qed.
+Example C02_ex_run_1d :
+  @Grid1D_uniform QOps 4%Z (1 # 2)%Q 1%Q = ([1 # 4; 3 # 4; 5 # 4; 7 # 4]%Q, ([false; false; false; false], (1 # 2)%Q, 1%Q))
+  /\ fst (@Grid1D_from_mask QOps ([false; true; false; false], (1 # 2)%Q, 1%Q)) = [1 # 4; 5 # 4; 7 # 4]%Q.
+Proof. split; vm_compute; reflexivity. Qed.
+
 Print Assumptions C02_centre_formula_grid.
 Print Assumptions C02_centre_formula_scalar.
 Print Assumptions C02_centre_formula_1d.
@@ -218,3 +398,36 @@ Print Assumptions C02_elliptical_executable_model.
 Print Assumptions C02_elliptical_annular_executable_model.
 Print Assumptions C02_elliptical_radius_executable_model.
 Print Assumptions C02_polar_form.
+Print Assumptions C02_extent_edges_half_pixel.
+Print Assumptions C02_extent_edges_half_pixel_1d.
+Print Assumptions C02_Mask2D_all_false_object.
+Print Assumptions C02_Mask2D_circular_object.
+Print Assumptions C02_Mask2D_circular_annular_object.
+Print Assumptions C02_Mask2D_circular_anti_annular_object.
+Print Assumptions C02_Mask2D_elliptical_object.
+Print Assumptions C02_Mask2D_elliptical_annular_object.
+Print Assumptions C02_Mask2D_elliptical_executable_model.
+Print Assumptions C02_Mask2D_elliptical_annular_executable_model.
+Print Assumptions C02_Mask2D_circular_geometry.
+Print Assumptions C02_circular_about_origin_plus_centre.
+Print Assumptions C02_circular_grid.
+Print Assumptions C02_uniform_grid_object.
+Print Assumptions C02_uniform_grid_nth.
+Print Assumptions C02_uniform_grid_indexes.
+Print Assumptions C02_coords_flat_index.
+Print Assumptions C02_from_mask_object.
+Print Assumptions C02_derive_unmasked_is_from_mask.
+Print Assumptions C02_derive_all_false_object.
+Print Assumptions C02_geometry_grid_methods_use_geometry_shape.
+Print Assumptions C02_geometry_index_of_interior_points.
+Print Assumptions C02_geometry_pixels_scaled_inverse.
+Print Assumptions C02_geometry_scalar_methods.
+Print Assumptions C02_snap_to_pixel_centre.
+Print Assumptions C02_snap_idempotent.
+Print Assumptions C02_native_is_rowwise.
+Print Assumptions C02_native_index_of_interior_points.
+Print Assumptions C02_grid1_of_mask_indexes_to_itself.
+Print Assumptions C02_uniform_1d_object.
+Print Assumptions C02_from_mask_1d_object.
+Print Assumptions C02_Mask1D_geometry_extent.
+Print Assumptions C02_derive_all_false_1d_refuted.
